@@ -9,6 +9,7 @@
   Invariant and its preservation: SimVerif/Lemmas/NetInv.lean, NetRun.lean.
 -/
 import SimVerif.Lemmas.NetIndep
+import SimVerif.Lemmas.UdpData
 set_option linter.unusedVariables false
 
 namespace SimVerif
@@ -718,86 +719,13 @@ theorem C11_release (c : NetCfg) (hc : c.WF) (ls : List NLbl) (name : String) :
 
 
 /-- the configuration never changes -/
-theorem NS.step_cfg (s : NS) (l : NLbl) : (s.step l).n.cfg = s.n.cfg := by
-  cases l <;> simp only [NS.step, NS.readStep, NS.discardStep]
-  case uNew name node => split <;> rfl
-  case uOpen name v4 => exact udpOpen_cfg _ _ _
-  case uBind name ep =>
-    by_cases hp : ∃ u ep1, s.n.udpBindPre name ep u ep1
-    · obtain ⟨u, ep1, hpre⟩ := hp
-      rw [udpBind_pre s.n name ep u ep1 hpre]
-      rcases simBind s.n.reg.udp s.n.reg.nextPort name ep1 with ⟨tbl, np, r⟩
-      cases r <;> rfl
-    · rw [udpBind_nopre s.n name ep hp]
-  case uClose name => exact udpClose_cfg _ _
-  case uDestroy name => exact udpDestroy_cfg _ _
-  case uMove src dst =>
-    split
-    · rename_i hg
-      cases hu : s.n.udp? src with
-      | none => simp [hu] at hg
-      | some u => exact (udpMove_eff s.n src dst u hu).cfg
-    · rfl
-  case uSendTo now name dst payload => exact (udpSendTo_tcpSame _ _ _ _ _).1.cfg
-  case uRecv name op => exact (udpAsyncRecv_frame _ _ _).cfg
-  case uRecvNb name caps => exact (udpRecvNb_frame _ _ _).cfg
-  case uWaitRead name h => exact (udpWaitRead_frame _ _ _).cfg
-  case uWaitWrite now name h => exact (udpWaitWrite_frame _ _ _ _).cfg
-  case uSendWaitFired name ab => exact (udpSendWaitFired_frame _ _ _).cfg
-  case uCancel name => exact (udpCancel_frame _ _).cfg
-  case uSetDf name df => cases s.n.udp? name <;> rfl
-  case deliver f p =>
-    cases s.n.fwdTarget f with
-    | none => rfl
-    | some name =>
-      dsimp only
-      cases s.n.udp? name with
-      | none => rfl
-      | some u => rfl
-  case tNew name node isAcc => split <;> rfl
-  case tOpen now name v4 => rw [tcpOpen_nf, (tcpOpen2_eff _ _ _).cfg, (tcpClose_eff _ _ _).cfg]
-  case tBind name ep =>
-    by_cases hp : ∃ u ep1, s.n.tcpBindPre name ep u ep1
-    · obtain ⟨u, ep1, hpre⟩ := hp
-      rw [tcpBind_pre s.n name ep u ep1 hpre]
-      rcases simBind s.n.reg.tcp s.n.reg.nextPort name ep1 with ⟨tbl, np, r⟩
-      cases r <;> rfl
-    · rw [tcpBind_nopre s.n name ep hp]
-  case tClose now name => exact (tcpClose_eff _ _ _).cfg
-  case tDestroy now name => exact (tcpDestroy_eff _ _ _).cfg
-  case tMove src dst =>
-    split
-    · rename_i hg
-      cases hu : s.n.tcp? src with
-      | none => simp [hu] at hg
-      | some t => exact (tcpMove_eff s.n src dst t hu).cfg
-    · rfl
-  case tConnect now name target h => exact (tcpConnect_udpSame _ _ _ _ _).1.cfg
-  case aListen name qs => exact (accListen_frame _ _ _).cfg
-  case aClose now name => exact (accClose_eff _ _ _).cfg
-  case tAttach now peer acceptor cid =>
-    cases s.n.tcp? acceptor with
-    | none => rfl
-    | some a =>
-      dsimp only
-      split
-      · rw [tcpAttach_nf]
-        cases s.n.tcp? peer with
-        | none => rfl
-        | some p0 =>
-          dsimp only
-          rw [(tcpAttach2_eff _ _ _ _).cfg, tcpOpen_nf, (tcpOpen2_eff _ _ _).cfg, (tcpClose_eff _ _ _).cfg]
-      · rfl
-  case tPatch name t' chans' =>
-    cases s.n.tcp? name with
-    | none => rfl
-    | some t => dsimp only; split <;> rfl
+theorem C11_step_cfg (s : NS) (l : NLbl) : (s.step l).n.cfg = s.n.cfg := NS.step_cfg s l
 
 theorem C11_cfg_constant (c : NetCfg) (ls : List NLbl) : ((NS.init c).run ls).n.cfg = c := by
   suffices ∀ s : NS, (s.run ls).n.cfg = s.n.cfg from this (NS.init c)
   induction ls with
   | nil => exact fun s => rfl
-  | cons l ls ih => exact fun s => (ih _).trans (s.step_cfg l)
+  | cons l ls ih => exact fun s => (ih _).trans (C11_step_cfg s l)
 
 /-- closing the holder of `ep` frees `ep` -/
 theorem closeEffU_frees {n n' : NetSt} {att : List String} (h : RInvN n att) {name : String} {ep : Ep}
@@ -832,7 +760,7 @@ theorem C11_release_rebind_udp (c : NetCfg) (hc : c.WF) (ls : List NLbl) (name o
     ((((NS.init c).run ls).step l).n.udpBind other ep).2 = .ok := by
   have hr := RInv.run c hc ls
   have hcfg : (((NS.init c).run ls).step l).n.cfg = c := by
-    rw [NS.step_cfg, C11_cfg_constant]
+    rw [C11_step_cfg, C11_cfg_constant]
   have hfree : (((NS.init c).run ls).step l).n.reg.udp.lookup ep = none := by
     rcases hl with rfl | rfl | ⟨v4, rfl⟩
     · exact closeEffU_frees hr.toN (udpClose_eff _ name).regU hheld
@@ -880,7 +808,7 @@ theorem C11_release_rebind_tcp (c : NetCfg) (hc : c.WF) (ls : List NLbl) (name o
     ((((NS.init c).run ls).step l).n.tcpBind other ep).2 = .ok := by
   have hr := RInv.run c hc ls
   have hcfg : (((NS.init c).run ls).step l).n.cfg = c := by
-    rw [NS.step_cfg, C11_cfg_constant]
+    rw [C11_step_cfg, C11_cfg_constant]
   have hfree : (((NS.init c).run ls).step l).n.reg.tcp.lookup ep = none := by
     rcases hl with ⟨now, rfl⟩ | ⟨now, rfl⟩ | ⟨now, rfl⟩ | ⟨now, v4, rfl⟩
     · exact closeEff_frees hr.toN (tcpClose_eff _ now name).regT hheld
@@ -1148,5 +1076,140 @@ theorem C11_close_detaches_tcp (s : NS) (name : String) (t : TcpSock) (f : Nat) 
   · show (s.n.accClose now name).1.fwdTarget f = none
     rw [(accClose_eff s.n now name).ft, hv]; simp
 
+
+namespace C11Ex
+
+/-! ## non-vacuity: a concrete history and every row of the table on it -/
+
+def cfg : NetCfg := { nodes := [("n0", ["10.0.0.1", "10.0.0.2"]), ("n1", ["10.0.1.1"])] }
+
+theorem cfg_wf : cfg.WF := by
+  intro node
+  unfold NetCfg.ipsOf cfg
+  simp only [List.lookup_cons, List.lookup_nil]
+  repeat' split
+  all_goals decide
+
+def ep5000 : Ep := { addr := "10.0.0.1", port := 5000 }
+
+/-- two UDP sockets and an acceptor on the two-address node `n0`, all open, nothing bound -/
+def pre : List NLbl :=
+  [.uNew "u0" "n0", .uNew "u1" "n0", .uOpen "u0" true, .uOpen "u1" true, .tNew "a0" "n0" true, .tOpen 0 "a0" true]
+
+def s0 : NS := (NS.init cfg).run pre
+/-- … then `u0` binds 10.0.0.1:5000 -/
+def s1 : NS := { s0 with n := s0.n.bindOk "u0" ep5000 }
+def hist : List NLbl := pre ++ [.uBind "u0" ep5000]
+
+def u1 : UdpSock := { node := "n0", isOpen := true, fwd := some 1 }
+def a0 : TcpSock := { node := "n0", isOpen := true, fwd := some 2, acc := some {} }
+
+theorem s1_eq : (NS.init cfg).run hist = s1 := by
+  unfold hist
+  rw [NS.run_append]
+  show ({ s0 with n := (s0.n.udpBind "u0" ep5000).1 } : NS) = s1
+  rw [udpBind_explicit s0.n "u0" ep5000 { node := "n0", isOpen := true, fwd := some 0 } rfl rfl
+      (by rw [Ep.isV4_eq]; decide) (by decide) rfl (by decide) (by decide)]
+  rfl
+
+example : s1.n.reg.udp = [(ep5000, "u0")] ∧ s1.n.reg.tcp = [] ∧ s1.n.udp? "u1" = some u1 ∧ s1.n.tcp? "a0" = some a0 := by
+  exact ⟨by decide, by decide, rfl, rfl⟩
+
+theorem u1Pre (ep ep1 : Ep) (hv : ep.isV4 = true) (hr : ioResolve ["10.0.0.1", "10.0.0.2"] ep = .ok ep1) :
+    s1.n.udpBindPre "u1" ep u1 ep1 := ⟨rfl, rfl, hv, by decide, hr⟩
+
+/-- row "taken": a second socket asking for 10.0.0.1:5000 gets address_in_use, nothing changes -/
+example : s1.n.udpBind "u1" ep5000 = (s1.n, .inUse) :=
+  C11_error_table_udp_in_use s1.n "u1" ep5000 ep5000 u1
+    (u1Pre _ _ (by rw [Ep.isV4_eq]; decide) rfl) (by decide) (by decide)
+
+/-- row "privileged": port 1023 → access_denied; port 1024 is fine -/
+example : s1.n.udpBind "u1" { addr := "10.0.0.1", port := 1023 } = (s1.n, .denied) :=
+  C11_error_table_udp_denied s1.n "u1" _ { addr := "10.0.0.1", port := 1023 } u1
+    (u1Pre _ _ (by rw [Ep.isV4_eq]; decide) rfl) (by decide)
+example : (s1.n.udpBind "u1" { addr := "10.0.0.1", port := 1024 }).2 = .ok := by
+  rw [C11_error_table_udp_ok s1.n "u1" _ { addr := "10.0.0.1", port := 1024 } u1
+    (u1Pre _ _ (by rw [Ep.isV4_eq]; decide) rfl) (by decide) (by decide)]
+
+/-- row "foreign address" -/
+example : s1.n.udpBind "u1" { addr := "10.0.1.1", port := 5000 } = (s1.n, .notAvail) :=
+  C11_error_table_udp_unresolved s1.n "u1" _ u1 .notAvail rfl rfl (by rw [Ep.isV4_eq]; decide) (by decide) rfl
+
+/-- row "wrong family" -/
+example : s1.n.udpBind "u1" { addr := "2001::1", port := 5000 } = (s1.n, .afNoSupport) :=
+  C11_error_table_udp_family s1.n "u1" _ u1 rfl rfl (by rw [Ep.isV4_eq]; decide)
+
+/-- row "already bound" -/
+example : s1.n.udpBind "u0" { addr := "10.0.0.2", port := 6000 } = (s1.n, .invalid) :=
+  C11_error_table_udp_bound s1.n "u0" _ { node := "n0", isOpen := true, fwd := some 0, bound := ep5000 } rfl rfl
+    (by rw [Ep.isV4_eq]; decide) (by decide)
+
+/-- the same port on the node's second address is a different endpoint -/
+example : (s1.n.udpBind "u1" { addr := "10.0.0.2", port := 5000 }).2 = .ok := by
+  rw [C11_error_table_udp_ok s1.n "u1" _ { addr := "10.0.0.2", port := 5000 } u1
+    (u1Pre _ _ (by rw [Ep.isV4_eq]; decide) rfl) (by decide) (by decide)]
+
+/-- row "ephemeral": port 0 yields 10.0.0.1:2000 (the counter's value), counter → 2001 -/
+example : ∃ n', s1.n.udpBind "u1" { addr := "10.0.0.1", port := 0 } = (n', .ok)
+    ∧ n'.reg.udp = [(ep5000, "u0"), ({ addr := "10.0.0.1", port := 2000 }, "u1")] ∧ n'.reg.nextPort = 2001 := by
+  rcases C11_error_table_udp_ephemeral s1.n "u1" { addr := "10.0.0.1", port := 0 } { addr := "10.0.0.1", port := 0 } u1
+    (u1Pre { addr := "10.0.0.1", port := 0 } { addr := "10.0.0.1", port := 0 } (by rw [Ep.isV4_eq]; decide) rfl) rfl with ⟨h, _⟩ | ⟨q, hq, e⟩
+  · exact absurd h (by decide)
+  · have : q = 2000 := by
+      have : probePort s1.n.reg.udp "10.0.0.1" 65536 s1.n.reg.nextPort = some 2000 := by decide
+      rw [this] at hq; exact (Option.some.inj hq).symm
+    subst this
+    exact ⟨_, e, rfl, rfl⟩
+
+/-- TCP and UDP are independent: the acceptor binds the endpoint `u0` holds -/
+example : (s1.n.tcpBind "a0" ep5000).2 = .ok := by
+  rw [C11_error_table_tcp_ok s1.n "a0" ep5000 ep5000 a0
+    ⟨rfl, rfl, by rw [Ep.isV4_eq]; decide, by decide, rfl⟩ (by decide) (by decide)]
+
+/-- release and re-bind, instantiated: `u0` closes, `u1` takes 10.0.0.1:5000 -/
+example : ((((NS.init cfg).run hist).step (.uClose "u0")).n.udpBind "u1" ep5000).2 = .ok :=
+  C11_release_rebind_udp cfg cfg_wf hist "u0" "u1" ep5000 (.uClose "u0") (Or.inl rfl)
+    (by rw [s1_eq]; decide) u1 (by rw [s1_eq]; rfl) rfl (by rw [Ep.isV4_eq]; decide) (by decide) (by decide)
+
+/-- move, instantiated: the entry of `u0` follows it into `u9` -/
+example : (ep5000, "u9") ∈ (((NS.init cfg).run hist).step (.uMove "u0" "u9")).n.reg.udp :=
+  (C11_move_transfers_udp cfg cfg_wf hist "u0" "u9" { node := "n0", isOpen := true, fwd := some 0, bound := ep5000 }
+    (by rw [s1_eq]; decide) (by rw [s1_eq]; rfl)).1 ep5000 (by rw [s1_eq]; decide)
+
+example := C11_exclusive cfg cfg_wf hist
+example : s1.n.udpRoute ep5000 { addr := "10.0.0.1", port := 7 } = none :=
+  C11_no_stale_delivery_udp_unbound s1.n ep5000 { addr := "10.0.0.1", port := 7 } (fun nm hm => by
+    have : s1.n.reg.udp = [(ep5000, "u0")] := by decide
+    rw [this] at hm; simp [ep5000] at hm)
+
+/-- row "wildcard": 0.0.0.0 resolves to the FIRST v4 address of the node -/
+example : ioResolve ["10.0.0.1", "10.0.0.2"] { addr := "0.0.0.0", port := 6000 } = .ok { addr := "10.0.0.1", port := 6000 } := by
+  rw [(C11_error_table_resolve _ _).1 rfl]
+  have : addrIsV4 "10.0.0.1" = true := by unfold addrIsV4; rw [String.contains_char_eq]; decide
+  simp [List.find?, this]
+
+/-! an accepted socket: `a0` binds 10.0.0.1:5000 and listens, `s5` is attached to a connection
+    of `a0` (no entry of its own), then closes: `a0` keeps its entry -/
+def s2 : NS := { s1 with n := ({ s1.n with reg := { s1.n.reg with tcp := [(ep5000, "a0")] } }).setTcp "a0" { a0 with bound := ep5000 } }
+def hist2 : List NLbl := hist ++ [.tBind "a0" ep5000]
+def post2 : List NLbl := [.aListen "a0" (-1), .tNew "s5" "n0" false, .tPatch "a0" { a0 with bound := ep5000, acc := some { queueLimit := 20 } } [{}],
+  .tAttach 0 "s5" "a0" 0]
+
+theorem s2_eq : (NS.init cfg).run hist2 = s2 := by
+  unfold hist2
+  rw [NS.run_append, s1_eq]
+  show ({ s1 with n := (s1.n.tcpBind "a0" ep5000).1 } : NS) = s2
+  rw [C11_error_table_tcp_ok s1.n "a0" ep5000 ep5000 a0
+    ⟨rfl, rfl, by rw [Ep.isV4_eq]; decide, by decide, rfl⟩ (by decide) (by decide)]
+  rfl
+
+example : (s2.run post2).attached = ["s5"] ∧ (s2.run post2).n.reg.tcp = [(ep5000, "a0")]
+    ∧ ((s2.run post2).n.tcp? "s5").map (fun t => (t.isOpen, t.bound)) = some (true, ep5000) := by decide
+
+example : (ep5000, "a0") ∈ (((NS.init cfg).run (hist2 ++ post2)).step (.tClose 7 "s5")).n.reg.tcp :=
+  C11_accepted_close cfg cfg_wf (hist2 ++ post2) "s5" "a0" ep5000
+    (by rw [NS.run_append, s2_eq]; decide) (by rw [NS.run_append, s2_eq]; decide) 7
+
+end C11Ex
 
 end SimVerif
